@@ -210,3 +210,7 @@ for n, e in (("hdr_tree_first_l3", "L3 (Root/A/B/L3)"), ("hdr_tree_first_l2", "L
     add(n, ["C06", "C03"], "hdr_tree.rs", "U", "first element of a stream is %s (position not yet fixed): a non-global element fixes it and its declared ancestors become open masters stored as End, offset 0, unknown size; a global does not" % e,
         "every 1-byte size field, 20 symbolic bytes behind, strict mode", tier="quick" if n in ("hdr_tree_first_l3", "hdr_tree_first_b", "hdr_tree_first_void") else "thorough",
         timeout_s=1200, mem_gb=10, stubs=IO_HASH, big_stack=True, assumes=["fresh iterator state, 20 bytes buffered"])
+
+# documents with masters (docm.rs: Root{U} on Mini, 4-6 next() calls) were attempted again in the build round with
+# unwind 10 and concrete structure: docm_known and docm_unknown_eof both hit the 3600 s timeout still in symex
+# (DESIGN section 2 row 38 confirmed). They are not registered: a check that can only be inconclusive helps nobody.
